@@ -136,6 +136,10 @@ func New(opt Option) (ShimAgent, error) {
 		return nil, err
 	}
 	ag, err := newShimAgent(conn, opt.NoUpstream)
+	if err != nil {
+		conn.Close()
+		return nil, err
+	}
 
 	if opt.PubKeyComp == nil {
 		opt.PubKeyComp = func(x, y ssh.PublicKey) bool {
